@@ -6,7 +6,8 @@ from vlib import BUILD, HARNESS_BIN
 
 class Proc:
     def __init__(self, argv, cwd=None):
-        self.p = subprocess.Popen(argv, stdin=subprocess.PIPE, stdout=subprocess.PIPE, stderr=subprocess.DEVNULL,
+        err = open(os.environ["VERIF_STDERR"], "ab") if os.environ.get("VERIF_STDERR") else subprocess.DEVNULL
+        self.p = subprocess.Popen(argv, stdin=subprocess.PIPE, stdout=subprocess.PIPE, stderr=err,
                                   cwd=cwd, bufsize=0)
         self.buf = b""
 
